@@ -57,6 +57,12 @@ class GO(G):
     __xpmid__ = "xvdeps.go"
     def task_outputs(self, dep):
         return dep(Out(v=self.k))
+
+class GPT(G):
+    """pass-through: marks the value of its parameter `o` (possibly already the output of an upstream task) as its own output"""
+    __xpmid__ = "xvdeps.gpt"
+    def task_outputs(self, dep):
+        return dep(self.o) if self.o is not None else dep(Out(v=self.k))
 '''
 
 
@@ -171,13 +177,24 @@ def main():
                 with experiment(ws, "deps", port=-1, run_mode=RunMode.DRY_RUN):
                     tasks, outs, created, extra = [], [], [], {}
                     actual = []
+                    snapshots = []
+                    producer = {}   # id(output object) -> index of the task whose submit returned it last
                     for ts in case["tasks"]:
                         t, init = build_task(mod, ts, tasks, outs, created, extra)
+                        producer_before = dict(producer)
+                        # the graph as `submit` sees it (a pass-through task re-marks an embedded output afterwards)
+                        snap_index = {id(o): i for i, o in enumerate(created)}
+                        snap_nodes = cfgbuild.model_graph(created)
+                        snap_nodes[snap_index[id(t)]]["init"] = [snap_index[id(x)] for x in init]   # submit(init_tasks=…)
+                        snapshots.append((snap_nodes, snap_index[id(t)],
+                                          sorted({snap_index[id(tasks[e[1]])] for e in ts["embeds"] if e[0] == "explicit"})))
                         import io, contextlib
                         with contextlib.redirect_stderr(io.StringIO()):
                             o = t.submit(init_tasks=init) if init else t.submit()
-                        if o is not t and o not in created:
+                        if o is not t and not any(o is c for c in created):
                             created.append(o)
+                        if o is not t:
+                            producer[id(o)] = len(tasks)
                         tasks.append(t)
                         outs.append(o)
                         deps = []
@@ -186,19 +203,17 @@ def main():
                             j = next((i for i, u in enumerate(tasks) if u.__xpm__.job is origin), None)
                             deps.append(j)
                         actual.append(sorted(set(x for x in deps if x is not None)))
-                        exp = {e[1] for e in ts["embeds"]}
+                        # an embedded task output stands for the task whose submit returned that object last (pass-through tasks)
+                        exp = {e[1] if (e[0] == "explicit" or outs[e[1]] is tasks[e[1]]) else producer_before.get(id(outs[e[1]]), e[1]) for e in ts["embeds"]}
                         for e in ts["embeds"]:
                             if e[0] != "explicit" and outs[e[1]] is not tasks[e[1]]:
                                 exp |= extra.get(e[1], set())
                         rec["expected"].append(sorted(exp))
-                    index = {id(o): i for i, o in enumerate(created)}
-                    rec["lines"].append({"op": "graph", "nodes": cfgbuild.model_graph(created)})
-                    rec["impl"].append({"ok": True})
-                    tnode = [index[id(t)] for t in tasks]
-                    for i, t in enumerate(tasks):
-                        explicit = sorted({tnode[e[1]] for e in case["tasks"][i]["embeds"] if e[0] == "explicit"})
-                        rec["lines"].append({"op": "deps", "n": tnode[i], "explicit": explicit})
-                        rec["impl"].append({"deps": sorted(tnode[j] for j in actual[i])})
+                    for i, (nodes, tn, explicit) in enumerate(snapshots):
+                        rec["lines"].append({"op": "graph", "nodes": nodes})
+                        rec["impl"].append({"ok": True})
+                        rec["lines"].append({"op": "deps", "n": tn, "explicit": explicit})
+                        rec["impl"].append({"deps": sorted(snapshots[j][1] for j in actual[i])})
                     rec["actual"] = actual
             except Exception as e:
                 rec["error"] = f"{type(e).__name__}: {e}"
